@@ -1,6 +1,7 @@
 package wl
 
 import (
+	"fmt"
 	"strings"
 
 	"pgregory.net/rapid"
@@ -16,20 +17,20 @@ var topicPool = []string{"/a", "/b", "/töpic/日本", "", "/shared"}
 
 // GenParams tunes the workload generator. The zero value gives the full C01 domain (quick sizes).
 type GenParams struct {
-	MaxMsgs     int   // default 60
-	ChunkHint   int64 // payload size classes are relative to this (default 300)
-	NoAttach    bool
-	NoMeta      bool
-	UniqueSeq   bool // sequence = message index (unique tag)
-	NoMaxTime   bool // never generate log time 2^64-1
-	NoLong      bool // no ≈70 KiB strings / 64-256 KiB payloads
-	MaxPayload  int  // hard cap for payload sizes (0 = none)
-	MinChannels int
-	MinMsgs     int
-	TimeMode    int // 0 = drawn; 1 tiny, 2 ascending, 3 descending, 4 uniform, 5 extremes-heavy
-	SmallIDs    bool
-	PythonIDs   bool // ids 1,2,3,... in definition order and no re-writes (what Python's Writer assigns)
-	ManyChannels int // this many extra channels (ids 100, 101, ...) are defined up front; messages use them too
+	MaxMsgs      int   // default 60
+	ChunkHint    int64 // payload size classes are relative to this (default 300)
+	NoAttach     bool
+	NoMeta       bool
+	UniqueSeq    bool // sequence = message index (unique tag)
+	NoMaxTime    bool // never generate log time 2^64-1
+	NoLong       bool // no ≈70 KiB strings / 64-256 KiB payloads
+	MaxPayload   int  // hard cap for payload sizes (0 = none)
+	MinChannels  int
+	MinMsgs      int
+	TimeMode     int // 0 = drawn; 1 tiny, 2 ascending, 3 descending, 4 uniform, 5 extremes-heavy
+	SmallIDs     bool
+	PythonIDs    bool // ids 1,2,3,... in definition order and no re-writes (what Python's Writer assigns)
+	ManyChannels int  // this many extra channels (ids 100, 101, ...) are defined up front; messages use them too
 }
 
 func Str(t *rapid.T, label string, allowLong bool) string {
@@ -45,6 +46,18 @@ func Str(t *rapid.T, label string, allowLong bool) string {
 }
 
 func GenKVs(t *rapid.T, label string, allowLong bool, maxKeys int) []KV {
+	if rapid.IntRange(0, 11).Draw(t, label+"-many?") == 0 {
+		// a large map whose keys share long prefixes, in a generated insertion order (parameter sets, per-sensor
+		// calibration tables): 16-48 keys in 1-3 families
+		var out []KV
+		fams := rapid.SliceOfNDistinct(rapid.SampledFrom([]string{"sensor/lidar/", "sensor/camera/", "calibration.", "p", ""}), 1, 3, func(s string) string { return s }).Draw(t, label+"-families")
+		n := rapid.IntRange(16, 48).Draw(t, label+"-many-n")
+		for i := 0; i < n; i++ {
+			out = append(out, KV{fmt.Sprintf("%s%02d/offset", fams[i%len(fams)], i), rapid.SampledFrom([]string{"", "0.5", "x"}).Draw(t, label+"-many-v")})
+		}
+		perm := rapid.Permutation(out).Draw(t, label+"-many-order")
+		return perm
+	}
 	n := rapid.IntRange(0, maxKeys).Draw(t, label+"-n")
 	seen := map[string]bool{}
 	var out []KV
